@@ -20,6 +20,7 @@
 import json
 import multiprocessing
 import os
+import threading
 import pickle
 import random
 import re
@@ -69,8 +70,20 @@ def write_module(name, stages, hits, extends="ConfigCache", extra=""):
             'mcStageOf == ("c1" :> %d @@ "c2" :> %d)' % (stages[0], stages[1]),
             'mcHits == ("c1" :> %s @@ "c2" :> %s)' % (tla_set(sorted(hits["c1"])), tla_set(sorted(hits["c2"]))),
             'mcPlatSeq == <<"default", "p1">>', extra, "===="]
-    with open(os.path.join(GEN, name + ".tla"), "w") as f:
-        f.write("\n".join(body) + "\n")
+    # several emission / simulation threads generate the module of one world while TLC processes of the same world are
+    # parsing it: never truncate it in place
+    path = os.path.join(GEN, name + ".tla")
+    text = "\n".join(body) + "\n"
+    try:
+        with open(path) as f:
+            if f.read() == text:
+                return name
+    except OSError:
+        pass
+    tmp = "%s.%d.%d.tmp" % (path, os.getpid(), threading.get_ident())
+    with open(tmp, "w") as f:
+        f.write(text)
+    os.replace(tmp, path)
     return name
 
 
